@@ -12,21 +12,22 @@ K_NAME = ('K_solve (SolveAll.solve_M / solve_period_M over Solver.solve_t_M, ins
           'pandas get_loc), vs SolverMixin.solve / solve_period / iter_periods of scripted and parser-built models over range, list, '
           'tuple, NumPy and pandas spans)')
 RULE = ('scripted models over span types {range, list / tuple of str, NumPy int / str array, pandas Index int / str, quarterly PeriodIndex, '
-        'list / NumPy / pandas spans with a repeated label (adjacent and non-monotonic repeats), and range / list / NumPy / pandas spans '
-        'holding a FALSY label (integer 0, empty string) at position 1} x span length 0..4 (5 at the thorough tier) x EVERY (start, end) pair over '
-        '{default, each label, an unknown label; PeriodIndex also: the label written as a string, a year that matches several quarters} '
+        'list / NumPy / pandas spans with a repeated label (adjacent and non-monotonic repeats, at the ends and INNER repeats with unambiguous '
+        'end labels), range / list / NumPy / pandas spans holding a FALSY label (integer 0, empty string) at position 1, quarterly PeriodIndex '
+        'starting 2000Q1 / 2000Q3} x span length 0..4 (5 at the thorough tier) x (start, end) pairs (every pair up to length 3, sampled beyond) over '
+        '{default, each label, an unknown label; PeriodIndex also: the label written as a string, year strings matching several / one / no quarter} '
         '(so reversed, equal, boundary and unknown pairs are all present) x a fault (exception in a pass, exception in the pre-hook, '
-        'NaN, +inf, non-convergence, warning) at each position in turn x errors / failures / catch_first_error / min_iter / max_iter / '
-        'offset / tol sampled; lags and leads 0..2 incl. spans too short for them and explicit starts before the first feasible period; '
+        'NaN, +inf, non-convergence, warning) at each position in turn (thorough tier: every kind at every position up to length 3) x errors / failures / catch_first_error / min_iter / max_iter / '
+        'offset / tol sampled; offsets -2..2 over whole spans and ranges touching either end (IndexError containment); lags and leads 0..2 incl. spans too short for them and explicit starts before the first feasible period; '
         'solve_period(label) for every label spec; iter_periods(start, end) itself for every pair (pairs and len() compared); parser-built models (recursive, simultaneous, lagged and leading equations, 1/X[-1], '
         'log) whose class-level LAGS / LEADS come from the real parser, the recorded per-pass columns being the model\'s script. Each case runs solve() (or solve_period) and, on a twin instance, the plain loop of '
         'solve_t over the positions the statement names. Non-trivial = at least two periods visited, or a fault / label error / '
         'infeasible period was met; distinct by hash of the whole case.')
 TRUSTED = ['scripted-model subclass harness/scripted.py (same script is the Coq oracle)',
            'labels are compared as integer ids (id of a label = first position holding an equal label, computed by the harness with ==)',
-           'PeriodIndex spans only: the model\'s `locate` is the table of get_loc answers recorded from the run (get_loc parses strings and '
-           'partial dates there; the oracle checks that every label resolves to its own position); plain pandas Index, NumPy, list, tuple '
-           'and range spans use the modelled lookup']
+           'span type period_q only: the model\'s `locate` is the table of get_loc answers recorded from the run (kept as a cross-check of '
+           'the modelled PeriodIndex lookup SolveAllPeriod.locate_qindex used for period_qm / period_qm_late: Period objects, full strings, '
+           'year strings matching several / one / no quarter); plain pandas Index, NumPy, list, tuple and range spans use the modelled lookup']
 ASSUMPTIONS = ['_evaluate and the hooks write only the column of the period they are called for (frame premise of C05_failure_containment; '
                'true of the scripted models used here, C05_scripted_oracles_frame)',
                'the statement\'s clauses about labels are evaluated on spans without repeated labels (with repeats the lookup itself is '
@@ -140,8 +141,10 @@ def gen(rng, tier):
         for n in range(0, nmax + 1):
             sp = specs_for(st, n)
             pairs = [(a, b) for a in sp for b in sp]
-            if quick and n >= 4:
-                pairs = rng.sample(pairs, 12)
+            if quick and (n >= 4 or len(pairs) > 49):
+                pairs = rng.sample(pairs, 12 if n >= 4 else 40)
+            if not quick and (n >= 5 or len(pairs) > 100):
+                pairs = rng.sample(pairs, min(len(pairs), 36 if n >= 5 else 100))
             for a, b in pairs:
                 cases.append(build(rng, st, n, a, b))
                 cases.append(build(rng, st, n, a, b, entry='iter_periods', lags=rng.choice([0, 0, 1]), leads=rng.choice([0, 0, 1])))
@@ -149,8 +152,10 @@ def gen(rng, tier):
                     continue
                 if quick:
                     faults = [(rng.randrange(n), rng.choice(FAULTS))]
-                elif n <= 4:
+                elif n <= 3:
                     faults = [(p, k) for p in range(n) for k in FAULTS]          # every fault kind at every position
+                elif n == 4:
+                    faults = [(p, k) for p in range(n) for k in rng.sample(FAULTS, 3)]
                 else:
                     faults = [(rng.randrange(n), rng.choice(FAULTS)) for _ in range(8)]
                 for f in faults:
